@@ -105,6 +105,26 @@ def run(chk, replay=None):
                 if rc_ == 0 and not complete:
                     chk.violation(f"wild exits 0 but the output is not completely written (strace inject={sc}:{what})",
                                   {"cmd": f"strace -f -e inject={sc}:{what} wild -o out a.o"})
+        # resource-limit faults: RLIMIT_FSIZE (SIGXFSZ ignored) makes write/ftruncate fail or come up short
+        import resource, signal
+        open(f"{d}/big.s", "w").write(".globl _start\n.text\n_start: mov $60,%eax\n xor %edi,%edi\n syscall\n.data\nblob: .fill 65536,1,0x5a\n")
+        sh(f"as -o {d}/big.o {d}/big.s", check=True)
+        rcb, _ = sh(f"{wild} -o {d}/bigref {d}/big.o", timeout=60)
+        bigref = open(f"{d}/bigref", "rb").read() if rcb == 0 else None
+        lim_runs = 0
+        if bigref:
+            def limited():
+                signal.signal(signal.SIGXFSZ, signal.SIG_IGN)
+                resource.setrlimit(resource.RLIMIT_FSIZE, (16384, 16384))
+            for flags in ([], ["--no-fork"], ["--no-mmap-output-file"], ["--no-fork", "--no-mmap-output-file"], ["--update-in-place"]):
+                outp = f"{d}/lim{lim_runs}"
+                pr = subprocess.run([wild] + flags + ["-o", outp, f"{d}/big.o"], preexec_fn=limited, stdout=subprocess.DEVNULL, stderr=subprocess.DEVNULL, timeout=120)
+                lim_runs += 1
+                complete = os.path.exists(outp) and open(outp, "rb").read() == bigref
+                if pr.returncode == 0 and not complete:
+                    chk.violation(f"wild exits 0 but the output is not completely written (RLIMIT_FSIZE=16384, SIGXFSZ ignored, flags {flags})",
+                                  {"cmd": f"(trap '' XFSZ; ulimit -f 16; wild {' '.join(flags)} -o out big.o)  # big.o has a 64 KiB .data", "size": os.path.getsize(outp) if os.path.exists(outp) else None})
+        st_runs += lim_runs
     finally:
         shutil.rmtree(d, ignore_errors=True)
     chk.cov.update({
